@@ -174,6 +174,24 @@ theorem allArgs_override (ctx : Ctx α) (k : Kind) (g : List α) (u : List Strin
     simp only [Bool.false_eq_true, if_false, pure_eq_ok, ok_bind]
     exact hmap
 
+theorem allArgs_none_one (ctx : Ctx α) (k : Kind) (hk : k.nargs = none) (r1 : Except Err α) :
+    allArgs ctx k false 1 [r1] none = (do let a ← r1; pure [a]) := by
+  unfold allArgs
+  rw [hk]
+  simp only [Bool.false_eq_true, if_false, pure_eq_ok, ok_bind]
+  show List.mapM _ [0] = _
+  simp only [List.mapM_cons, List.mapM_nil, argAt]
+  cases r1 <;> rfl
+
+theorem allArgs_none_two (ctx : Ctx α) (k : Kind) (hk : k.nargs = none) (r1 r2 : Except Err α) :
+    allArgs ctx k false 2 [r1, r2] none = (do let a ← r1; let b ← r2; pure [a, b]) := by
+  unfold allArgs
+  rw [hk]
+  simp only [Bool.false_eq_true, if_false, pure_eq_ok, ok_bind]
+  show List.mapM _ [0, 1] = _
+  simp only [List.mapM_cons, List.mapM_nil, argAt]
+  cases r1 <;> cases r2 <;> rfl
+
 end generic
 
 /-- the mass-action product for positive concentrations -/
@@ -313,5 +331,490 @@ theorem eval_poly_node (ctx : Ctx ℝ) (p : String) (recip shift : Bool) (g : Li
     | nil => simp [evalList]
     | cons a l ih => simp [evalList, eval, ih]
   simp only [eval, call, hev, List.length_map, haa, ok_bind, get_some hx]
+
+/-! ### piecewise -/
+
+theorem le_real_false (x y : ℝ) : PyNum.le x y = false ↔ ¬ x ≤ y := by
+  simp [PyNum.le]
+
+theorem le_and_real (lo x up : ℝ) : (PyNum.le lo x && PyNum.le x up) = true ↔ (lo ≤ x ∧ x ≤ up) := by
+  simp [Bool.and_eq_true]
+
+/-- the i-th interval of `lo₀, ex₀, up₀ = lo₁, ex₁, up₁ = …` contains x -/
+def pwHit (x : ℝ) (b : List ℝ) (i : Nat) : Prop :=
+  ∃ lo up, b[2 * i]? = some lo ∧ b[2 * i + 2]? = some up ∧ lo ≤ x ∧ x ≤ up
+
+theorem pwHit_succ (x lo ex up : ℝ) (rest : List ℝ) (i : Nat) :
+    pwHit x (lo :: ex :: up :: rest) (i + 1) ↔ pwHit x (up :: rest) i := by
+  unfold pwHit
+  have h1 : 2 * (i + 1) = (2 * i) + 1 + 1 := by ring
+  have h2 : 2 * i + 1 + 1 + 2 = (2 * i + 2) + 1 + 1 := by ring
+  rw [h1, h2]
+  simp only [List.getElem?_cons_succ]
+
+theorem pwSelect_spec (x : ℝ) : ∀ (b : List ℝ) (v : ℝ), pwSelect x b = .ok v →
+    ∃ i, pwHit x b i ∧ b[2 * i + 1]? = some v ∧ ∀ j < i, ¬ pwHit x b j
+  | [], v, h => by simp [pwSelect] at h
+  | [_], v, h => by simp [pwSelect] at h
+  | [_, _], v, h => by simp [pwSelect] at h
+  | lo :: ex :: up :: rest, v, h => by
+      rw [pwSelect] at h
+      by_cases hc : lo ≤ x ∧ x ≤ up
+      · have : (PyNum.le lo x && PyNum.le x up) = true := (le_and_real lo x up).mpr hc
+        rw [this] at h
+        simp only [if_true, Except.ok.injEq] at h
+        refine ⟨0, ⟨lo, up, by simp, by simp, hc.1, hc.2⟩, by simp [h], by simp⟩
+      · have : (PyNum.le lo x && PyNum.le x up) = false := by
+          rw [← Bool.not_eq_true, le_and_real]; exact hc
+        rw [this] at h
+        simp only [Bool.false_eq_true, if_false] at h
+        obtain ⟨i, hi, hv, hmin⟩ := pwSelect_spec x (up :: rest) v h
+        refine ⟨i + 1, (pwHit_succ x lo ex up rest i).mpr hi, ?_, ?_⟩
+        · have h1 : 2 * (i + 1) + 1 = (2 * i + 1) + 1 + 1 := by ring
+          rw [h1]; simpa using hv
+        · intro j hj
+          cases j with
+          | zero =>
+            rintro ⟨lo', up', h0, h2, hl, hu⟩
+            simp at h0 h2
+            subst h0 h2
+            exact hc ⟨hl, hu⟩
+          | succ j => rw [pwHit_succ]; exact hmin j (by omega)
+termination_by b => b.length
+
+/-- conversely, an interval containing x makes the selection succeed -/
+theorem pwSelect_complete (x : ℝ) : ∀ (b : List ℝ) (i : Nat), pwHit x b i → (∃ ex, b[2 * i + 1]? = some ex) →
+    ∃ v, pwSelect x b = .ok v
+  | [], i, ⟨lo, up, h0, _⟩, _ => by simp at h0
+  | [_], i, ⟨lo, up, _, h2, _⟩, _ => by simp at h2
+  | [_, _], i, ⟨lo, up, _, h2, _⟩, _ => by simp at h2
+  | lo :: ex :: up :: rest, i, hi, hex => by
+      rw [pwSelect]
+      by_cases hc : (PyNum.le lo x && PyNum.le x up) = true
+      · exact ⟨ex, by rw [hc]; rfl⟩
+      · have hcf : (PyNum.le lo x && PyNum.le x up) = false := by rw [← Bool.not_eq_true]; exact hc
+        rw [hcf]
+        simp only [Bool.false_eq_true, if_false]
+        cases i with
+        | zero =>
+          obtain ⟨lo', up', h0, h2, hl, hu⟩ := hi
+          simp at h0 h2
+          subst h0 h2
+          exact absurd ((le_and_real _ _ _).mpr ⟨hl, hu⟩) hc
+        | succ i =>
+          apply pwSelect_complete x (up :: rest) i ((pwHit_succ x lo ex up rest i).mp hi)
+          obtain ⟨e, he⟩ := hex
+          have h1 : 2 * (i + 1) + 1 = (2 * i + 1) + 1 + 1 := by ring
+          rw [h1] at he
+          exact ⟨e, by simpa using he⟩
+termination_by b => b.length
+
+/-! ### operator nodes -/
+
+theorem noneArg_eq_ok {k : Kind} {r : Except Err ℝ} {x : ℝ} : noneArg k r = .ok x ↔ r = .ok x := by
+  cases r with
+  | ok v => simp [noneArg]
+  | error e => cases e <;> simp [noneArg] <;> split <;> simp
+
+/-- a binary operator node evaluates both operands and combines them -/
+theorem eval_add_node (ctx : Ctx ℝ) (p q : Val ℝ) (a b : ℝ) (hp : eval ctx p = .ok a) (hq : eval ctx q = .ok b) :
+    eval ctx (.node .add false [p, q] none) = .ok (a + b) := by
+  simp only [eval, evalList, call, childCtx, hp, hq, List.map_cons, List.map_nil, noneArg_ok, List.length_cons,
+    List.length_nil, allArgs_none_two ctx .add rfl, ok_bind, pure_eq_ok]
+
+theorem eval_sub_node (ctx : Ctx ℝ) (p q : Val ℝ) (a b : ℝ) (hp : eval ctx p = .ok a) (hq : eval ctx q = .ok b) :
+    eval ctx (.node .sub false [p, q] none) = .ok (a - b) := by
+  simp only [eval, evalList, call, childCtx, hp, hq, List.map_cons, List.map_nil, noneArg_ok, List.length_cons,
+    List.length_nil, allArgs_none_two ctx .sub rfl, ok_bind, pure_eq_ok]
+
+theorem eval_mul_node (ctx : Ctx ℝ) (p q : Val ℝ) (a b : ℝ) (hp : eval ctx p = .ok a) (hq : eval ctx q = .ok b) :
+    eval ctx (.node .mul false [p, q] none) = .ok (a * b) := by
+  simp only [eval, evalList, call, childCtx, hp, hq, List.map_cons, List.map_nil, noneArg_ok, List.length_cons,
+    List.length_nil, allArgs_none_two ctx .mul rfl, ok_bind, pure_eq_ok]
+
+theorem eval_div_node (ctx : Ctx ℝ) (p q : Val ℝ) (a b : ℝ) (hp : eval ctx p = .ok a) (hq : eval ctx q = .ok b) :
+    eval ctx (.node .div false [p, q] none) = pyDiv a b := by
+  simp only [eval, evalList, call, childCtx, hp, hq, List.map_cons, List.map_nil, noneArg_ok, List.length_cons,
+    List.length_nil, allArgs_none_two ctx .div rfl, ok_bind, pure_eq_ok]
+
+theorem eval_pow_node (ctx : Ctx ℝ) (p q : Val ℝ) (a b : ℝ) (hp : eval ctx p = .ok a) (hq : eval ctx q = .ok b) :
+    eval ctx (.node .pow false [p, q] none) = PyNum.pow a b := by
+  simp only [eval, evalList, call, childCtx, hp, hq, List.map_cons, List.map_nil, noneArg_ok, List.length_cons,
+    List.length_nil, allArgs_none_two ctx .pow rfl, ok_bind, pure_eq_ok]
+
+theorem eval_neg_node (ctx : Ctx ℝ) (p : Val ℝ) (a : ℝ) (hp : eval ctx p = .ok a) :
+    eval ctx (.node .neg false [p] none) = .ok (-a) := by
+  simp only [eval, evalList, call, childCtx, hp, List.map_cons, List.map_nil, noneArg_ok, List.length_cons,
+    List.length_nil, allArgs_none_one ctx .neg rfl, ok_bind, pure_eq_ok]
+
+/-- the value of a product node whose evaluation succeeds is the product of its operands' values -/
+theorem eval_mul_node_inv (ctx : Ctx ℝ) (p q : Val ℝ) (c : ℝ) (h : eval ctx (.node .mul false [p, q] none) = .ok c) :
+    ∃ a b, eval ctx p = .ok a ∧ eval ctx q = .ok b ∧ c = a * b := by
+  simp only [eval, evalList, call, childCtx, List.map_cons, List.map_nil, List.length_cons,
+    List.length_nil, allArgs_none_two ctx .mul rfl] at h
+  cases hp : eval ctx p with
+  | error e =>
+    rw [hp] at h
+    cases e <;> simp [noneArg] at h
+  | ok a =>
+    cases hq : eval ctx q with
+    | error e =>
+      rw [hp, hq] at h
+      cases e <;> simp [noneArg] at h
+    | ok b =>
+      rw [hp, hq] at h
+      simp only [noneArg_ok, ok_bind, pure_eq_ok, Except.ok.injEq] at h
+      exact ⟨a, b, rfl, rfl, h.symm⟩
+
+theorem eval_neg_node_inv (ctx : Ctx ℝ) (p : Val ℝ) (c : ℝ) (h : eval ctx (.node .neg false [p] none) = .ok c) :
+    ∃ a, eval ctx p = .ok a ∧ c = -a := by
+  simp only [eval, evalList, call, childCtx, List.map_cons, List.map_nil, List.length_cons,
+    List.length_nil, allArgs_none_one ctx .neg rfl] at h
+  cases hp : eval ctx p with
+  | error e =>
+    rw [hp] at h
+    cases e <;> simp [noneArg] at h
+  | ok a =>
+    rw [hp] at h
+    simp only [noneArg_ok, ok_bind, pure_eq_ok, Except.ok.injEq] at h
+    exact ⟨a, rfl, h.symm⟩
+
+mutual
+/-- the shape of what the overloaded operators construct: every operator node (at any depth) has stored arguments,
+no unique keys and the arity of its operator -/
+def plainOps {α : Type} : Val α → Bool
+  | .num _ => true
+  | .str _ => true
+  | .node k na args uks =>
+      (match k with
+       | .neg => !na && uks.isNone && args.length == 1
+       | .add | .sub | .mul | .div | .pow => !na && uks.isNone && args.length == 2
+       | _ => true) && plainOpsList args
+def plainOpsList {α : Type} : List (Val α) → Bool
+  | [] => true
+  | a :: as => plainOps a && plainOpsList as
+end
+
+theorem plainOps_mul_inv {α : Type} {na : Bool} {args : List (Val α)} {uks : Option (List String)}
+    (h : plainOps (.node .mul na args uks) = true) :
+    ∃ p q, na = false ∧ uks = none ∧ args = [p, q] ∧ plainOps p = true ∧ plainOps q = true := by
+  simp only [plainOps, Bool.and_eq_true, Bool.not_eq_true', Option.isNone_iff_eq_none, beq_iff_eq] at h
+  obtain ⟨⟨⟨hna, huk⟩, hlen⟩, hl⟩ := h
+  match args, hlen, hl with
+  | [p, q], _, hl =>
+    simp only [plainOpsList, Bool.and_eq_true, and_true] at hl
+    exact ⟨p, q, hna, huk, rfl, hl.1, hl.2⟩
+
+/-- a trivially-zero operand evaluates to zero (when it evaluates at all) -/
+theorem trivZero_value (ctx : Ctx ℝ) : ∀ (v : Val ℝ), plainOps v = true → trivZero v = true →
+    ∀ a, eval ctx v = .ok a → a = 0
+  | .num _, _, h, _, _ => by simp [trivZero] at h
+  | .str _, _, h, _, _ => by simp [trivZero] at h
+  | .node k na args uks, hp, h, a, he => by
+    cases k with
+    | const =>
+      match args, h with
+      | .num x :: rest, hx0 =>
+        simp only [trivZero, beq_real, Nat.cast_zero] at hx0
+        cases na with
+        | true => simp [eval, call] at he
+        | false =>
+          simp only [eval, call, Bool.false_eq_true, if_false, Except.ok.injEq] at he
+          rw [← he]; exact hx0
+    | mul =>
+      obtain ⟨p, q, hna, huk, hargs, hpp, hpq⟩ := plainOps_mul_inv hp
+      subst hna huk
+      rw [hargs] at he h
+      obtain ⟨x, y, hx, hy, hxy⟩ := eval_mul_node_inv ctx p q a he
+      subst hxy
+      cases p with
+      | num _ => simp [trivZero] at h
+      | str _ => simp [trivZero] at h
+      | node kp nap ap up =>
+        by_cases htp : trivZero (Val.node kp nap ap up) = true
+        · rw [trivZero_value ctx _ hpp htp x hx, zero_mul]
+        · cases q with
+          | num _ => simp [trivZero, htp] at h
+          | str _ => simp [trivZero, htp] at h
+          | node kq naq aq uq =>
+            have htq : trivZero (Val.node kq naq aq uq) = true := by simpa [trivZero, htp] using h
+            rw [trivZero_value ctx _ hpq htq y hy, mul_zero]
+    | _ => simp [trivZero] at h
+termination_by v => sizeOf v
+decreasing_by all_goals (subst hargs; simp_wf; omega)
+
+/-! ### the overloaded operators -/
+
+theorem plainOps_node2 {α : Type} (k : Kind) (p q : Val α) (hk : k = .add ∨ k = .sub ∨ k = .mul ∨ k = .div ∨ k = .pow)
+    (hp : plainOps p = true) (hq : plainOps q = true) : plainOps (.node k false [p, q] none) = true := by
+  rcases hk with h | h | h | h | h <;> subst h <;> simp [plainOps, plainOpsList, hp, hq]
+
+/-- `_implicit_conversion` does not change the value, the shape or the class of an operand -/
+theorem conv_spec (ctx : Ctx ℝ) (v v' : Val ℝ) (h : conv v = .ok v') :
+    eval ctx v' = eval ctx v ∧ (plainOps v = true → plainOps v' = true) ∧ v'.isNode = true
+      ∧ v'.isMassAction = v.isMassAction := by
+  cases v with
+  | num x =>
+    simp only [conv] at h
+    split at h
+    · cases h
+      refine ⟨?_, fun _ => by simp [constNode, plainOps, plainOpsList], rfl, rfl⟩
+      simp [constNode, eval, call]
+    · cases h
+  | str s =>
+    cases h
+    refine ⟨?_, fun _ => by simp [symbolNode, plainOps, plainOpsList], rfl, rfl⟩
+    simp [symbolNode, eval, call]
+  | node k na args uks =>
+    cases h
+    exact ⟨rfl, id, rfl, rfl⟩
+
+theorem exprAdd_hom (ctx : Ctx ℝ) (self other e : Val ℝ) (a b : ℝ) (h : exprAdd self other = .ok e)
+    (hps : plainOps self = true) (hpo : plainOps other = true)
+    (ha : eval ctx self = .ok a) (hb : eval ctx other = .ok b) :
+    eval ctx e = .ok (a + b) ∧ plainOps e = true := by
+  unfold exprAdd at h
+  cases hc : conv other with
+  | error err => rw [hc] at h; cases h
+  | ok o =>
+    rw [hc] at h
+    obtain ⟨hev, hpl, _, _⟩ := conv_spec ctx other o hc
+    simp only [ok_bind] at h
+    by_cases htz : trivZero o = true
+    · simp only [htz, if_true, pure_eq_ok, Except.ok.injEq] at h
+      subst h
+      have hb0 : b = 0 := trivZero_value ctx o (hpl hpo) htz b (by rw [hev, hb])
+      rw [hb0, add_zero]
+      exact ⟨ha, hps⟩
+    · simp only [htz, Bool.false_eq_true, if_false, pure_eq_ok, Except.ok.injEq] at h
+      subst h
+      exact ⟨eval_add_node ctx self o a b ha (by rw [hev, hb]), plainOps_node2 .add _ _ (Or.inl rfl) hps (hpl hpo)⟩
+
+theorem exprNeg_hom (ctx : Ctx ℝ) (self e : Val ℝ) (a : ℝ) (h : exprNeg self = .ok e)
+    (hps : plainOps self = true) (ha : eval ctx self = .ok a) :
+    eval ctx e = .ok (-a) ∧ plainOps e = true := by
+  unfold exprNeg at h
+  split at h
+  · rename_i na args uks
+    simp only [plainOps, Bool.and_eq_true, Bool.not_eq_true', Option.isNone_iff_eq_none, beq_iff_eq] at hps
+    obtain ⟨⟨⟨hna, huk⟩, hlen⟩, hl⟩ := hps
+    match args, hlen, hl, h with
+    | [x], _, hl, h =>
+      cases h
+      subst hna huk
+      obtain ⟨y, hy, hay⟩ := eval_neg_node_inv ctx e a ha
+      simp only [plainOpsList, Bool.and_true] at hl
+      rw [hay, neg_neg]
+      exact ⟨hy, hl⟩
+  · cases h
+    refine ⟨eval_neg_node ctx self a ha, ?_⟩
+    simp [plainOps, plainOpsList, hps]
+
+theorem exprSub_hom (ctx : Ctx ℝ) (self other e : Val ℝ) (a b : ℝ) (h : exprSub self other = .ok e)
+    (hne : other ≠ .str "") (hps : plainOps self = true) (hpo : plainOps other = true)
+    (ha : eval ctx self = .ok a) (hb : eval ctx other = .ok b) :
+    eval ctx e = .ok (a - b) ∧ plainOps e = true := by
+  unfold exprSub at h
+  -- the short-cut test
+  have key : ∀ short : Bool, (short = true → b = 0) →
+      (do if short then return self
+          return .node .sub false [self, ← conv other] none : Except Err (Val ℝ)) = .ok e →
+      eval ctx e = .ok (a - b) ∧ plainOps e = true := by
+    intro short hs h
+    cases short with
+    | true =>
+      simp only [if_true, pure_eq_ok, Except.ok.injEq] at h
+      subst h
+      rw [hs rfl, sub_zero]; exact ⟨ha, hps⟩
+    | false =>
+      simp only [Bool.false_eq_true, if_false] at h
+      cases hc : conv other with
+      | error err => rw [hc] at h; cases h
+      | ok o =>
+        rw [hc] at h
+        obtain ⟨hev, hpl, _, _⟩ := conv_spec ctx other o hc
+        simp only [ok_bind, pure_eq_ok, Except.ok.injEq] at h
+        subst h
+        exact ⟨eval_sub_node ctx self o a b ha (by rw [hev, hb]), plainOps_node2 .sub _ _ (Or.inr (Or.inl rfl)) hps (hpl hpo)⟩
+  cases other with
+  | num x =>
+    simp only [pure_eq_ok, ok_bind] at h
+    refine key _ ?_ h
+    intro hx
+    simp only [beq_real, Nat.cast_zero, mul_zero] at hx
+    simp only [eval, Except.ok.injEq] at hb
+    rw [← hb, hx]
+  | str s =>
+    simp only [pure_eq_ok, ok_bind] at h
+    refine key _ ?_ h
+    intro hx
+    have : s = "" := by simpa using hx
+    exact absurd (by rw [this]) hne
+  | node k na args uks =>
+    cases k
+    case massAction =>
+      simp only [pure_eq_ok] at h
+      cases hu : uwArg (Val.node Kind.massAction na args uks) with
+      | error err => rw [hu] at h; cases h
+      | ok w =>
+        rw [hu] at h
+        simp only [ok_bind] at h
+        cases w with
+        | num x =>
+          simp only at h
+          split at h
+          · exact key false (by simp) h
+          · cases h
+        | str _ => exact key false (by simp) h
+        | node _ _ _ _ => exact key false (by simp) h
+    all_goals (simp only [pure_eq_ok, ok_bind] at h; exact key false (by simp) h)
+
+
+theorem isOne_value (ctx : Ctx ℝ) (o : Val ℝ) (b : ℝ) (h : isOne o = true) (hb : eval ctx o = .ok b) : b = 1 := by
+  cases o with
+  | num x =>
+    simp only [isOne, beq_real, Nat.cast_one] at h
+    simp only [eval, Except.ok.injEq] at hb
+    rw [← hb, h]
+  | str _ => simp [isOne] at h
+  | node _ _ _ _ => simp [isOne] at h
+
+/-- `Expr.__mul__` for operands that are not `MassAction` instances -/
+theorem exprMul_hom (ctx : Ctx ℝ) (self other e : Val ℝ) (a b : ℝ) (h : exprMul self other = .ok e)
+    (hms : self.isMassAction = false) (hmo : other.isMassAction = false)
+    (hps : plainOps self = true) (hpo : plainOps other = true)
+    (ha : eval ctx self = .ok a) (hb : eval ctx other = .ok b) :
+    eval ctx e = .ok (a * b) ∧ plainOps e = true := by
+  unfold exprMul at h
+  simp only [hms, hmo, Bool.false_eq_true, if_false] at h
+  by_cases h1 : isOne other = true
+  · simp only [h1, if_true, pure_eq_ok, Except.ok.injEq] at h
+    subst h
+    rw [isOne_value ctx other b h1 hb, mul_one]; exact ⟨ha, hps⟩
+  · simp only [h1, Bool.false_eq_true, if_false] at h
+    cases hc : conv other with
+    | error err => rw [hc] at h; cases h
+    | ok o =>
+      rw [hc] at h
+      obtain ⟨hev, hpl, _, _⟩ := conv_spec ctx other o hc
+      simp only [ok_bind, pure_eq_ok, Except.ok.injEq] at h
+      subst h
+      exact ⟨eval_mul_node ctx self o a b ha (by rw [hev, hb]),
+        plainOps_node2 .mul _ _ (Or.inr (Or.inr (Or.inl rfl))) hps (hpl hpo)⟩
+
+/-- `Expr.__truediv__` for operands that are not `MassAction` instances: the value is Python's `a / b` -/
+theorem exprDiv_hom (ctx : Ctx ℝ) (self other e : Val ℝ) (a b : ℝ) (h : exprDiv self other = .ok e)
+    (hms : self.isMassAction = false) (hmo : other.isMassAction = false)
+    (hps : plainOps self = true) (hpo : plainOps other = true)
+    (ha : eval ctx self = .ok a) (hb : eval ctx other = .ok b) :
+    eval ctx e = pyDiv a b ∧ plainOps e = true := by
+  unfold exprDiv at h
+  by_cases h1 : isOne other = true
+  · simp only [h1, if_true, pure_eq_ok, Except.ok.injEq] at h
+    subst h
+    have hb1 := isOne_value ctx other b h1 hb
+    rw [hb1, pyDiv_real one_ne_zero, div_one]; exact ⟨ha, hps⟩
+  · simp only [h1, hms, hmo, Bool.false_eq_true, if_false] at h
+    cases hc : conv other with
+    | error err => rw [hc] at h; cases h
+    | ok o =>
+      rw [hc] at h
+      obtain ⟨hev, hpl, _, _⟩ := conv_spec ctx other o hc
+      simp only [ok_bind, pure_eq_ok, Except.ok.injEq] at h
+      subst h
+      exact ⟨eval_div_node ctx self o a b ha (by rw [hev, hb]),
+        plainOps_node2 .div _ _ (Or.inr (Or.inr (Or.inr (Or.inl rfl)))) hps (hpl hpo)⟩
+
+/-- `other / self` through `Expr.__rtruediv__` (self not a `MassAction`) -/
+theorem exprRDiv_hom (ctx : Ctx ℝ) (self other e : Val ℝ) (a b : ℝ) (h : exprRDiv self other = .ok e)
+    (hms : self.isMassAction = false) (hps : plainOps self = true) (hpo : plainOps other = true)
+    (ha : eval ctx self = .ok a) (hb : eval ctx other = .ok b) :
+    eval ctx e = pyDiv b a ∧ plainOps e = true := by
+  unfold exprRDiv at h
+  simp only [hms, Bool.false_eq_true, if_false] at h
+  cases hc : conv other with
+  | error err => rw [hc] at h; cases h
+  | ok o =>
+    rw [hc] at h
+    obtain ⟨hev, hpl, _, _⟩ := conv_spec ctx other o hc
+    simp only [ok_bind, pure_eq_ok, Except.ok.injEq] at h
+    subst h
+    exact ⟨eval_div_node ctx o self b a (by rw [hev, hb]) ha,
+      plainOps_node2 .div _ _ (Or.inr (Or.inr (Or.inr (Or.inl rfl)))) (hpl hpo) hps⟩
+
+/-- `l ** r` -/
+theorem pyPow_hom (ctx : Ctx ℝ) (l r e : Val ℝ) (a b : ℝ) (h : pyPow l r = .ok e)
+    (hpl : plainOps l = true) (hpr : plainOps r = true)
+    (ha : eval ctx l = .ok a) (hb : eval ctx r = .ok b) :
+    eval ctx e = PyNum.pow a b ∧ plainOps e = true := by
+  unfold pyPow at h
+  split at h
+  · cases hc : conv r with
+    | error err => rw [hc] at h; cases h
+    | ok o =>
+      rw [hc] at h
+      obtain ⟨hev, hpl', _, _⟩ := conv_spec ctx r o hc
+      simp only [ok_bind, pure_eq_ok, Except.ok.injEq] at h
+      subst h
+      exact ⟨eval_pow_node ctx l o a b ha (by rw [hev, hb]),
+        plainOps_node2 .pow _ _ (Or.inr (Or.inr (Or.inr (Or.inr rfl)))) hpl (hpl' hpr)⟩
+  · split at h
+    · cases hc : conv l with
+      | error err => rw [hc] at h; cases h
+      | ok o =>
+        rw [hc] at h
+        obtain ⟨hev, hpl', _, _⟩ := conv_spec ctx l o hc
+        simp only [ok_bind, pure_eq_ok, Except.ok.injEq] at h
+        subst h
+        exact ⟨eval_pow_node ctx o r a b (by rw [hev, ha]) hb,
+          plainOps_node2 .pow _ _ (Or.inr (Or.inr (Or.inr (Or.inr rfl)))) (hpl' hpl) hpr⟩
+    · cases h
+
+/-! ### concrete witnesses (exact rationals) and backend homomorphisms -/
+
+/-- `variables = {'A': 2, 'T': 3}`, `reaction = 2 A -> …` -/
+def wctx : Ctx Rat := ⟨fun k => if k = "A" then some 2 else if k = "T" then some 3 else none, .some [("A", 2)]⟩
+
+instance : DecidableEq (Except Err Rat) := fun a b =>
+  match a, b with
+  | .ok x, .ok y => if h : x = y then isTrue (by rw [h]) else isFalse (by intro h'; cases h'; exact h rfl)
+  | .error x, .error y => if h : x = y then isTrue (by rw [h]) else isFalse (by intro h'; cases h'; exact h rfl)
+  | .ok _, .error _ => isFalse (by intro h; cases h)
+  | .error _, .ok _ => isFalse (by intro h; cases h)
+
+/-- a map between two number structures that commutes with the arithmetic operations, integer literals and `exp`:
+floats → magnitudes of quantities in consistent units, numbers → symbolic expressions (with `φ⁻¹` = substitution), … -/
+structure BackendHom {α β : Type} [Add α] [Sub α] [Mul α] [Div α] [Neg α] [NatCast α] [HasExp α]
+    [Add β] [Sub β] [Mul β] [Div β] [Neg β] [NatCast β] [HasExp β] (φ : α → β) : Prop where
+  map_add : ∀ x y, φ (x + y) = φ x + φ y
+  map_sub : ∀ x y, φ (x - y) = φ x - φ y
+  map_mul : ∀ x y, φ (x * y) = φ x * φ y
+  map_div : ∀ x y, φ (x / y) = φ x / φ y
+  map_neg : ∀ x, φ (-x) = -φ x
+  map_natCast : ∀ n : Nat, φ (n : α) = (n : β)
+  map_exp : ∀ x, φ (HasExp.exp x) = HasExp.exp (φ x)
+
+section
+variable {α β : Type} [Add α] [Sub α] [Mul α] [Div α] [Neg α] [NatCast α] [HasExp α]
+    [Add β] [Sub β] [Mul β] [Div β] [Neg β] [NatCast β] [HasExp β] {φ : α → β}
+
+theorem BackendHom.map_dec (h : BackendHom φ) (m : Int) (k : Nat) : φ (Num.dec m k) = Num.dec m k := by
+  unfold Num.dec Num.ofInt
+  rw [h.map_div, h.map_natCast]
+  split
+  · rw [h.map_neg, h.map_natCast]
+  · rw [h.map_natCast]
+
+theorem gen_naturality (h : BackendHom φ) (x y z : α) :
+    φ (Gen.arrheniusEquation x y z) = Gen.arrheniusEquation (φ x) (φ y) (φ z)
+    ∧ φ (Gen.eyringEquation x y z) = Gen.eyringEquation (φ x) (φ y) (φ z)
+    ∧ φ (Gen.arrheniusFromRateconstA x y z) = Gen.arrheniusFromRateconstA (φ x) (φ y) (φ z)
+    ∧ φ (Gen.arrheniusEaOverR x) = Gen.arrheniusEaOverR (φ x)
+    ∧ φ (Gen.eyringKBhExpDSR x) = Gen.eyringKBhExpDSR (φ x)
+    ∧ φ (Gen.eyringDHOverR x) = Gen.eyringDHOverR (φ x) := by
+  simp only [Gen.arrheniusEquation, Gen.eyringEquation, Gen.arrheniusFromRateconstA, Gen.arrheniusEaOverR,
+    Gen.eyringKBhExpDSR, Gen.eyringDHOverR, Gen.getR, Gen.getKBOverH, h.map_mul, h.map_div, h.map_neg, h.map_exp,
+    h.map_dec, and_self]
+end
 
 end ChemModel.PyExpr
